@@ -127,7 +127,6 @@ package meta
 // themselves are ASSUMED to (trusted contracts below, one per helper)
 //@ func (*Engine).IsMatch
 //@   props C01 C11
-//@   opt safety=off
 //@   requires leafOK(e) && stratOK(e)
 //@   modifies @searchState
 //@   ensures result == refFound(e, e.longest, haystack, 0)
